@@ -16,6 +16,9 @@ import (
 	"time"
 
 	"github.com/TarsCloud/TarsGo/tars"
+	"github.com/TarsCloud/TarsGo/tars/protocol/codec"
+	"github.com/TarsCloud/TarsGo/tars/protocol/res/requestf"
+	"github.com/TarsCloud/TarsGo/tars/transport"
 	"github.com/TarsCloud/TarsGo/tars/util/current"
 	"github.com/TarsCloud/TarsGo/tars/util/rogger"
 	c10idl "verifharness/idlgen/VerifC10"
@@ -168,6 +171,71 @@ func c10StartServer(dir string, cfg c10Cfg, imp *c10Imp) (tcpAddr, udpAddr strin
 	return tcpAddr, udpAddr, nil
 }
 
+// ---------- sched scenarios: a TarsServer of our own around a recording wrapper of the real Protocol ----------
+type c10Wrap struct {
+	inner *tars.Protocol
+	mu    sync.Mutex
+	pre   map[int32]int32  // request id -> delay before Invoke is entered (ms)
+	ev    map[int32][]byte // request id -> events in order
+}
+
+func c10PkgID(pkg []byte) int32 {
+	var p requestf.RequestPacket
+	if len(pkg) < 4 {
+		return 0
+	}
+	p.ReadFrom(codec.NewReader(pkg[4:]))
+	return p.IRequestId
+}
+
+func (w *c10Wrap) log(id int32, e byte) {
+	w.mu.Lock()
+	w.ev[id] = append(w.ev[id], e)
+	w.mu.Unlock()
+}
+
+func (w *c10Wrap) Invoke(ctx context.Context, pkg []byte) []byte {
+	id := c10PkgID(pkg)
+	w.mu.Lock()
+	d := w.pre[id]
+	w.mu.Unlock()
+	if d > 0 {
+		time.Sleep(time.Duration(d) * time.Millisecond)
+	}
+	w.log(id, 'S')
+	rsp := w.inner.Invoke(ctx, pkg)
+	w.log(id, 'R')
+	return rsp
+}
+
+func (w *c10Wrap) InvokeTimeout(pkg []byte) []byte {
+	w.log(c10PkgID(pkg), 'T')
+	return w.inner.InvokeTimeout(pkg)
+}
+func (w *c10Wrap) ParsePackage(buff []byte) (int, int) { return w.inner.ParsePackage(buff) }
+func (w *c10Wrap) GetCloseMsg() []byte                 { return w.inner.GetCloseMsg() }
+func (w *c10Wrap) DoClose(ctx context.Context)         { w.inner.DoClose(ctx) }
+
+func c10StartSched(cfg c10Cfg, imp *c10Imp) (w *c10Wrap, tcpAddr, udpAddr string, err error) {
+	w = &c10Wrap{inner: tars.VerifNewProtocol(new(c10idl.Srv), imp, true), pre: map[int32]int32{}, ev: map[int32][]byte{}}
+	tp, up := c10FreePorts()
+	tcpAddr, udpAddr = fmt.Sprintf("127.0.0.1:%d", tp), fmt.Sprintf("127.0.0.1:%d", up)
+	for _, pa := range [][2]string{{"tcp", tcpAddr}, {"udp", udpAddr}} {
+		conf := &transport.TarsServerConf{Proto: pa[0], Address: pa[1], MaxInvoke: int32(cfg.Pool), QueueCap: 10000,
+			AcceptTimeout: 500 * time.Millisecond, ReadTimeout: time.Second, WriteTimeout: time.Second,
+			HandleTimeout: time.Duration(cfg.HT) * time.Millisecond, IdleTimeout: time.Hour, TCPNoDelay: true}
+		srv := transport.NewTarsServer(w, conf)
+		if err := srv.Listen(); err != nil {
+			return nil, "", "", err
+		}
+		go srv.Serve()
+	}
+	rogger.SetLevel(rogger.OFF)
+	return w, tcpAddr, udpAddr, nil
+}
+
+var c10WaitCap = 25 * time.Second
+
 // ---------- scripted raw client ----------
 type c10Collector struct {
 	mu   sync.Mutex
@@ -309,7 +377,7 @@ func c10RunOnce(s *c10Scn, addr string, imp *c10Imp) error {
 		}
 		return sendErr
 	}
-	deadline := time.Now().Add(25 * time.Second)
+	deadline := time.Now().Add(c10WaitCap)
 	callsDone := func() bool {
 		imp.mu.Lock()
 		defer imp.mu.Unlock()
@@ -328,6 +396,13 @@ func c10RunOnce(s *c10Scn, addr string, imp *c10Imp) error {
 	}
 	for time.Now().Before(deadline) && !(col.count() >= wantReplies && callsDone()) {
 		time.Sleep(5 * time.Millisecond)
+	}
+	if !(col.count() >= wantReplies && callsDone()) {
+		imp.mu.Lock()
+		s.Note = fmt.Sprintf("gave up waiting after 25 s: %d of %d expected replies, implementation log %v / %v for the calls %v", col.count(), wantReplies, imp.started, imp.finished, wantCalls)
+		imp.mu.Unlock()
+	} else {
+		s.Note = ""
 	}
 	grace := 300 * time.Millisecond
 	if s.Cfg.HT > 0 {
@@ -370,9 +445,22 @@ func c10ChildMain(inPath, outPath string) {
 		os.WriteFile(outPath, []byte("[]"), 0o644)
 		return
 	}
+	if v := os.Getenv("C10_WAIT_CAP_S"); v != "" {
+		var n int
+		fmt.Sscan(v, &n)
+		if n > 0 {
+			c10WaitCap = time.Duration(n) * time.Second
+		}
+	}
 	imp := &c10Imp{started: map[int32]int{}, finished: map[int32]int{}}
 	dir, _ := os.Getwd()
-	tcpAddr, udpAddr, err := c10StartServer(dir, batch[0].Cfg, imp)
+	var tcpAddr, udpAddr string
+	var wrap *c10Wrap
+	if batch[0].Kind == "sched" {
+		wrap, tcpAddr, udpAddr, err = c10StartSched(batch[0].Cfg, imp)
+	} else {
+		tcpAddr, udpAddr, err = c10StartServer(dir, batch[0].Cfg, imp)
+	}
 	if err != nil {
 		fatal("c10 child: server: %v", err)
 	}
@@ -381,6 +469,9 @@ func c10ChildMain(inPath, outPath string) {
 	// scenarios that use tars_ping are serialised among themselves so that the servant's ping counter is attributable
 	var wg sync.WaitGroup
 	sem := make(chan struct{}, 6)
+	if wrap != nil {
+		sem = make(chan struct{}, 1) // the wrapper's script is keyed by request id: one scenario at a time
+	}
 	var pingMu sync.Mutex
 	var outMu sync.Mutex
 	flush := func() {
@@ -412,11 +503,42 @@ func c10ChildMain(inPath, outPath string) {
 			}
 			for try := 1; try <= 3; try++ {
 				s.Tries = try
+				if wrap != nil {
+					wrap.mu.Lock()
+					wrap.pre, wrap.ev = map[int32]int32{}, map[int32][]byte{}
+					for k := range s.Reqs {
+						wrap.pre[s.Reqs[k].ID] = s.Reqs[k].Pre
+					}
+					wrap.mu.Unlock()
+				}
 				if err := c10RunOnce(s, addr, imp); err != nil {
 					s.Err = err.Error()
 					continue
 				}
 				s.Err = ""
+				if wrap != nil {
+					// every Invoke of this scenario has returned by now or does so shortly: wait for the R events
+					for k := 0; k < 400; k++ {
+						wrap.mu.Lock()
+						done := true
+						for i := range s.Reqs {
+							ev := wrap.ev[s.Reqs[i].ID]
+							if len(ev) == 0 || ev[len(ev)-1] != 'R' && !(len(ev) >= 2 && ev[len(ev)-2] == 'R') {
+								done = false
+							}
+						}
+						wrap.mu.Unlock()
+						if done {
+							break
+						}
+						time.Sleep(10 * time.Millisecond)
+					}
+					wrap.mu.Lock()
+					for i := range s.Reqs {
+						s.Reqs[i].Events = string(wrap.ev[s.Reqs[i].ID])
+					}
+					wrap.mu.Unlock()
+				}
 				fs := c10Monitor(s)
 				retry := false
 				for _, f := range fs {
